@@ -478,6 +478,14 @@ func c15class(p string, set []string) string {
 			return "nested-cuemod-in-set"
 		}
 	}
+	// a name that is also a directory of another entry (compared case-insensitively, as the checkers do)
+	lp := strings.ToLower(p)
+	for _, q := range set {
+		lq := strings.ToLower(q)
+		if q != p && (strings.HasPrefix(lq, lp+"/") || strings.HasPrefix(lp, lq+"/")) {
+			return "file-is-also-directory"
+		}
+	}
 	parts := strings.Split(p, "/")
 	for _, e := range parts[:len(parts)-1] {
 		switch e {
